@@ -10,6 +10,7 @@ use std::hash::{Hash, Hasher};
 verus! {
 
 //@include _shared/bus_filter_prelude.rs
+broadcast use {trusted::axiom_filter_key_model, vstd::std_specs::hash::group_hash_axioms};
 //@item broker/src/bus_listener.rs struct BusListener
 
 impl BusListener {
@@ -107,16 +108,24 @@ impl BusListener {
         exists|f: BusListenerFilter| self.filters@.contains(f) && spec_matches_event(f, event)
     }
 
+    spec fn has_any_object_filter(&self) -> bool { self.filters@.contains(BusListenerFilter::Object(None)) }
+
+    // the any-object filter matches every object: matches_object's result IS the plain semantics
+    proof fn lemma_any_object_filter_matches(&self, object: ObjectId)
+        ensures (self.has_any_object_filter() || self.some_filter_matches_object(object))
+            == self.some_filter_matches_object(object),
+    {
+        if self.filters@.contains(BusListenerFilter::Object(None)) {
+            assert(spec_matches_object(BusListenerFilter::Object(None), object));
+        }
+    }
+
     // the cached any-object flag short-cuts the scan: right only because of flags_ok
     //@fn broker/src/bus_listener.rs BusListener::matches_object iter-any-all
         requires self.flags_ok(),
-        ensures r == self.some_filter_matches_object(object),
-    //@ghost before `self.matches_all_objects`
-        proof {
-            if self.matches_all_objects {
-                assert(self.filters@.contains(BusListenerFilter::Object(None)) && spec_matches_object(BusListenerFilter::Object(None), object));
-            }
-        }
+        // (the first disjunct is implied by the second -- lemma_any_object_filter_matches below --; stated so that the function's
+        // own proof needs no witness and hence no ghost text tied to the shape of the short-cut)
+        ensures r == (self.has_any_object_filter() || self.some_filter_matches_object(object)),
     //@loop 0 it
         invariant
             it.seq().no_duplicates(), it.seq().len() == self.filters@.len(),
